@@ -51,11 +51,22 @@ func genC19(t *rapid.T) History {
 				h.Ops = append(h.Ops, Op{K: opMaintain})
 			case k < 70:
 				h.Ops = append(h.Ops, Op{K: opClose})
+			case k < 78 && sleeps < 6 && h.TimeoutNs > 0 && h.TimeoutNs < int64(time.Second):
+				h.Ops = append(h.Ops, Op{K: opSleep, SleepUs: int(h.TimeoutNs/1000) + 400})
+				sleeps++
 			default:
-				// a push after Close: what the push itself does is not specified, but a later Maintain or Close
-				// must still fail and deliver nothing
-				next++
-				h.Ops = append(h.Ops, Op{K: opPush, Seq: h.Base + next, Typ: rapid.SampledFrom([]uint16{1300, 1302, 1327, eoe}).Draw(t, "typafterclose")})
+				// a push after Close: the Reassembler goes on accepting records (a receive loop that is still running),
+				// and what it accepts it owes the Stream under the same rules as before; a later Maintain or Close must
+				// still fail and deliver nothing. Half of these records belong to an event that was buffered when Close
+				// flushed it (the straggler of a flushed event starts a new event).
+				off := uint32(0)
+				if len(used) > 0 && rapid.Bool().Draw(t, "straggler") {
+					off = used[len(used)-1-rapid.IntRange(0, min(3, len(used)-1)).Draw(t, "recentafterclose")]
+				} else {
+					next++
+					off = next
+				}
+				h.Ops = append(h.Ops, Op{K: opPush, Seq: h.Base + off, Typ: rapid.SampledFrom([]uint16{1300, 1302, 1327, eoe}).Draw(t, "typafterclose")})
 			}
 		case k < 22:
 			h.Ops = append(h.Ops, Op{K: opMaintain})
@@ -163,7 +174,10 @@ func propC19(h History) error {
 					return fmt.Errorf("op %d: %s after Close triggered %d callbacks", i, o.K, len(st.CBs))
 				}
 			}
-			continue
+			if o.K != opPush {
+				continue
+			}
+			// a push after Close is a push: the events it creates are delivered for the same causes as any other
 		}
 		switch o.K {
 		case opClose:
